@@ -4,14 +4,18 @@ package transport
 
 import (
 	"bytes"
+	"context"
 	"errors"
 	"io"
+	"net"
 	"strings"
 	"testing"
+	"time"
 
 	"golang.org/x/net/http2"
 	"golang.org/x/net/http2/hpack"
 	"google.golang.org/grpc/mem"
+	"google.golang.org/grpc/resolver"
 )
 
 // C01/C02/C03 driver: a real loopyWriter on a real framer that writes into a
@@ -28,6 +32,9 @@ import (
 //	op [7,id,rst]           cleanupStream
 //	op [8] incomingGoAway   op [9,ack] ping   op [10] processData()   op [12] closeConnection
 //	op [21,sid,v]           incomingSettings{sid v} (sid other than 1 and 4)
+//	op [30,last...]         above loopy: real http2Client (raw HTTP/2 peer over net.Pipe), fresh stream, one
+//	                        ClientStream.Write per element with WriteOptions.Last = element; reported as
+//	                        pseudo frames [7,last,accepted,0,0]
 //
 //	obs [code,isEmpty,nfr, 5 ints per frame..., sendQuota,oiws,draining,nact,active ids...,
 //	     nstr, (id,state,bytesOutStanding,len itl) per established stream in registration order]
@@ -46,6 +53,7 @@ type vLoopyH struct {
 	split   map[uint32]bool
 	ntC02   bool
 	ntC03   bool
+	ntAPI   bool
 	touched map[uint32]bool
 }
 
@@ -192,6 +200,55 @@ func (h *vLoopyH) opened(id uint32) {
 	}
 }
 
+// vLoopyAPIWrites runs the Write calls of op 30 on a real client transport and returns, per
+// call, whether it was accepted (nil error).
+func vLoopyAPIWrites(lasts []int64) []int64 {
+	ctx, cancel := context.WithTimeout(context.Background(), 20*time.Second)
+	defer cancel()
+	cc, sc := net.Pipe()
+	go func() { // raw peer: preface, SETTINGS, ack the client's SETTINGS, swallow everything else
+		defer sc.Close()
+		if _, err := io.ReadFull(sc, make([]byte, len(clientPreface))); err != nil {
+			return
+		}
+		fr := http2.NewFramer(sc, sc)
+		if fr.WriteSettings() != nil {
+			return
+		}
+		for {
+			f, err := fr.ReadFrame()
+			if err != nil {
+				return
+			}
+			if sf, ok := f.(*http2.SettingsFrame); ok && !sf.IsAck() {
+				fr.WriteSettingsAck()
+			}
+		}
+	}()
+	copts := ConnectOptions{BufferPool: mem.DefaultBufferPool(),
+		Dialer: func(context.Context, string) (net.Conn, error) { return cc, nil }}
+	ct, err := NewHTTP2Client(ctx, ctx, resolver.Address{Addr: "verif"}, copts, func(GoAwayInfo) {})
+	out := make([]int64, 0, 5*len(lasts))
+	if err != nil {
+		cc.Close()
+		for range lasts {
+			out = append(out, 96, 0, 0, 0, 0)
+		}
+		return out
+	}
+	defer ct.Close(errors.New("verif: done"))
+	st, err := ct.NewStream(ctx, &CallHdr{Host: "localhost", Method: "verif.S/M"}, nil)
+	for _, l := range lasts {
+		if err != nil {
+			out = append(out, 96, 0, 0, 0, 0)
+			continue
+		}
+		werr := st.Write([]byte{0, 0, 0, 0, 1}, mem.BufferSlice{mem.SliceBuffer([]byte{'x'})}, &WriteOptions{Last: l != 0})
+		out = append(out, 7, vB(l != 0), vB(werr == nil), 0, 0)
+	}
+	return out
+}
+
 func (h *vLoopyH) step(op []int64) []int64 {
 	l := h.l
 	if h.dead {
@@ -313,6 +370,10 @@ func (h *vLoopyH) step(op []int64) []int64 {
 		isEmpty, err = l.processData()
 	case 12:
 		err = l.handle(closeConnection{})
+	case 30:
+		acc := vLoopyAPIWrites(op[1:])
+		h.ntAPI = true
+		return vCat([]int64{0, 0, int64(len(op) - 1)}, acc, h.snapshot())
 	}
 	if err != nil {
 		code = 1
@@ -350,6 +411,9 @@ func vLoopyExec(cfg []int64, ops [][]int64) ([][]int64, bool, []string) {
 	if h.dead {
 		tags = append(tags, "loopy-exited")
 	}
+	if h.ntAPI {
+		tags = append(tags, "api-write-after-last")
+	}
 	return obs, h.nt || nsplit >= 2, tags
 }
 
@@ -362,6 +426,54 @@ func vLoopyGen(r *vRand, tier string, idx int) ([]int64, [][]int64) {
 	if idx == 3 {
 		// the C02 witness: trailers queued behind data, written by processData together with RST_STREAM
 		return []int64{1}, [][]int64{{3, 1}, {6, 1, 5, 10, 0}, {5, 1, 1, 0, vLoopyHLen(0), 1}, {10}, {3, 3}, {5, 3, 1, 0, vLoopyHLen(0), 1}}
+	}
+	switch idx {
+	case 4, 5:
+		// prefix split: k = 1..4 bytes of stream window are left when a message with an EMPTY payload starts
+		// (idx 4 client, the empty message is the last one; idx 5 server, trailers queued behind it)
+		s5 := int64(idx - 4)
+		ops := [][]int64{{1, 0, 1 << 20}}
+		id := int64(1)
+		for k := int64(1); k <= 4; k++ {
+			for _, d1 := range []int64{0, 7} {
+				if s5 == 1 {
+					ops = append(ops, []int64{3, id})
+				} else {
+					ops = append(ops, []int64{4, id, 3, vLoopyHLen(3), 0})
+				}
+				ops = append(ops, []int64{2, 5 + d1 + k}, []int64{6, id, 5, d1, 0}, []int64{6, id, 5, 0, 1 - s5})
+				if s5 == 1 {
+					ops = append(ops, []int64{5, id, 1, 5, vLoopyHLen(5), 0})
+				}
+				ops = append(ops, []int64{10}, []int64{10}, []int64{10}, []int64{1, id, 1}, []int64{10}, []int64{1, id, 100}, []int64{10}, []int64{10})
+				id += 2
+			}
+		}
+		return []int64{s5}, ops
+	case 7:
+		// header blocks larger than one frame with END_STREAM: trailers-only, and trailers queued behind data
+		ops := [][]int64{{1, 0, 1 << 20}}
+		id := int64(1)
+		for _, n := range []int64{16377, 16378, 16379, 16384, 40000} {
+			ops = append(ops, []int64{3, id}, []int64{5, id, 1, n, vLoopyHLen(n), 0})
+			ops = append(ops, []int64{3, id + 2}, []int64{5, id + 2, 0, n, vLoopyHLen(n), 0}, []int64{6, id + 2, 5, 10, 0},
+				[]int64{5, id + 2, 1, n, vLoopyHLen(n), 0}, []int64{10}, []int64{10})
+			id += 4
+		}
+		return []int64{1}, ops
+	case 6:
+		// every Last-flag sequence of up to 3 Write calls on a real http2Client
+		var ops [][]int64
+		for n := 1; n <= 3; n++ {
+			for m := 0; m < 1<<n; m++ {
+				op := []int64{30}
+				for b := 0; b < n; b++ {
+					op = append(op, int64(m>>b&1))
+				}
+				ops = append(ops, op)
+			}
+		}
+		return []int64{0}, ops
 	}
 	var ops [][]int64
 	ended := map[int64]bool{} // ids that got a message with endStream: the application writes nothing after it
@@ -482,8 +594,8 @@ func vLoopyGen(r *vRand, tier string, idx int) ([]int64, [][]int64) {
 			}
 		case k < 88:
 			if sd == 1 {
-				n := r.PickI64(0, 10, 126, 127, 300, 16380, 16384, 40000)
-				if !r.Chance(15) {
+				n := r.PickI64(0, 10, 126, 127, 300, 16377, 16378, 16380, 16384, 40000)
+				if !r.Chance(30) {
 					n = int64(r.Intn(200))
 				}
 				id := pick()
@@ -500,8 +612,24 @@ func vLoopyGen(r *vRand, tier string, idx int) ([]int64, [][]int64) {
 					break
 				}
 			}
-		case k < 94:
+		case k < 93:
 			ops = append(ops, []int64{9, vB(r.Bool())})
+		case k < 94:
+			// prefix split on a fresh stream: k0 = 1..4 bytes of window left for an empty-payload message
+			if len(ids) < 6 {
+				k0, d1 := int64(1+r.Intn(4)), r.PickI64(0, 1, 50, 20000)
+				open()
+				id := ids[len(ids)-1]
+				es := sd == 0 && r.Bool()
+				if es {
+					ended[id] = true
+				}
+				ops = append(ops, []int64{2, 5 + d1 + k0}, []int64{6, id, 5, d1, 0}, []int64{6, id, 5, 0, vB(es)})
+				for n := 3 + len(ids); n > 0; n-- {
+					ops = append(ops, []int64{10})
+				}
+				ops = append(ops, []int64{1, id, r.PickI64(1, 2, 100)}, []int64{10}, []int64{10})
+			}
 		case k < 96:
 			ops = append(ops, []int64{21, r.PickI64(2, 3, 5, 6), int64(r.Intn(1 << 20))})
 		case k < 97:
@@ -511,6 +639,12 @@ func vLoopyGen(r *vRand, tier string, idx int) ([]int64, [][]int64) {
 		case k < 98:
 			if r.Chance(10) {
 				ops = append(ops, []int64{12})
+			} else if r.Chance(25) {
+				op := []int64{30}
+				for n := 1 + r.Intn(4); n > 0; n-- {
+					op = append(op, vB(r.Chance(40)))
+				}
+				ops = append(ops, op)
 			}
 		default:
 			// re-registration of an id (skipped when still established)
